@@ -480,6 +480,33 @@ func c01CoversAll(r *an.Run) {
 				r.Count("element loops", 1)
 			}
 		}
+		if !found {
+			// the loop may live in a private "apply matcher i to element i" helper that is handed the list and
+			// an accessor for the candidate's elements (got.Index, got.Field, or a closure over got[i+idx])
+			for _, c := range an.Calls(f) {
+				h := an.StaticCallee(c)
+				msIdx, atIdx, isEach := asMatchEachHelper(h)
+				if !isEach || msIdx >= len(c.Common().Args) || atIdx >= len(c.Common().Args) {
+					continue
+				}
+				if an.Path(c.Common().Args[msIdx]) != items {
+					continue
+				}
+				acc, okAcc := accessorOf(c.Common().Args[atIdx])
+				if !okAcc || acc.base == nil {
+					continue
+				}
+				if p := pathOrName(acc.base); p != candBase {
+					continue
+				}
+				found = true
+				agree := acc.offset.Sub(offset).IsZero()
+				r.Check(agree, short(f)+"|same-index", c.Pos(), "matcher i of %s is applied to candidate element i%s (through %s, whose loop applies matcher i to what the accessor yields for i)", items, offsetText(offset), short(h))
+				r.Pass(short(f)+"|covers-all", c.Pos(), "all matchers of %s are applied: %s runs over the whole list it is handed and fails on the first false verdict", items, short(h))
+				// the helper's verdict is the function's: a failure is not turned into a success
+				r.Count("element loops", 1)
+			}
+		}
 		r.Check(found, short(f)+"|loop", f.Pos(), "%s matches %s[i] against the candidate's element i in an index loop", short(f), items)
 	}
 	zero := an.Affine{Terms: map[string]int64{}}
@@ -1763,6 +1790,49 @@ func compileLoopCovers(r *an.Run, rel, name, accessor, lenAtom, what string) int
 				r.Count("element loops", 1)
 				nFound++
 			}
+		}
+	}
+	if !found {
+		// result = collect(n, func(i) { return c.compile(v.<accessor>(i)) }): element i is what the function value
+		// makes of i, for every i below n
+		for _, c := range an.Calls(f) {
+			h := an.StaticCallee(c)
+			nIdx, atIdx, isMap := asMapHelper(h)
+			if !isMap || nIdx >= len(c.Common().Args) || atIdx >= len(c.Common().Args) {
+				continue
+			}
+			acc, okAcc := accessorOf(c.Common().Args[atIdx])
+			if !okAcc || acc.result == nil {
+				continue
+			}
+			call, isCall := acc.result.(*ssa.Call)
+			if !isCall || an.StaticCallee(call) == nil || !strings.HasSuffix(an.StaticCallee(call).Name(), "compile") || len(an.CallArgs(call)) < 2 {
+				continue
+			}
+			ac, isAcc := an.CallArgs(call)[1].(*ssa.Call)
+			if !isAcc || !an.IsCallTo(ac, accessor) || len(ac.Call.Args) != 2 {
+				continue
+			}
+			// v.<accessor>(i) with v the pattern value of f (captured) and i the function's own parameter
+			baseOK := false
+			if u, isLoad := ac.Call.Args[0].(*ssa.UnOp); isLoad {
+				if fv, isFV := u.X.(*ssa.FreeVar); isFV && fv.Name() == "v" {
+					baseOK = true
+				}
+			}
+			if fv, isFV := ac.Call.Args[0].(*ssa.FreeVar); isFV && fv.Name() == "v" {
+				baseOK = true
+			}
+			if !baseOK {
+				continue
+			}
+			found = true
+			want := an.Affine{Terms: map[string]int64{lenAtom: 1}}
+			n := an.Lin(c.Common().Args[nIdx])
+			r.Check(ac.Call.Args[1] == ssa.Value(acc.param), short(f)+"|same-index", call.Pos(), "the "+what+" compiled from element j of the pattern value is stored at index j (element i of the list is what the function value makes of i)")
+			r.Check(n.Sub(want).IsZero(), short(f)+"|covers-all", c.Pos(), "all %s elements of the pattern value are compiled (%s builds a list of length %s)", lenAtom, short(h), n.String())
+			r.Count("element loops", 1)
+			nFound++
 		}
 	}
 	r.Check(found, short(f)+"|loop", f.Pos(), "%s compiles %s(v, i) in an index loop and stores the result at [i]", short(f), accessor)
